@@ -58,6 +58,7 @@ OVERLAY_FILES = {
     "internal/pkg/midi/device/zz_verif_life_test.go": "harness/device/life_test.go",
     "internal/pkg/midi/device/config/zz_verif_runner_test.go": "harness/config/runner_test.go",
     "internal/pkg/midi/device/config/zz_verif_watch_test.go": "harness/config/watch_test.go",
+    "internal/pkg/midi/device/config/zz_verif_parse_test.go": "harness/config/parse_test.go",
     "internal/pkg/input/zz_verif_runner_test.go": "harness/input/runner_test.go",
     "internal/pkg/utils/zz_verif_runner_test.go": "harness/utils/runner_test.go",
     "internal/pkg/midi/zz_verif_runner_test.go": "harness/midi/runner_test.go",
